@@ -320,9 +320,14 @@ package destination
 //@     assumed_invariant[channel_ownership] !closed(s.InBulk)
 //@
 //@ // collectRedo: what getRedo returns is what Ingest gets
-//@ func (d *nsqd.DiskQueue) Put(data []byte) error
-//@   trusted
+//@ // Put: the message is handed to the queue's own goroutine (one send on writeChan, the answer is that goroutine's
+//@ // writeOne result) unless the queue is shutting down, in which case the caller gets an error
+//@ func (d *nsqd.DiskQueue) Put(data []byte) (err error)
+//@   property C07
 //@   logged
+//@   requires d.writeChan != nil && d.writeResponseChan != nil && !closed(d.writeChan)
+//@   modifies sent(d.writeChan), recvd(d.writeResponseChan), drained(d.writeResponseChan), d.RWMutex.held
+//@   ensures[handed_to_the_queue_or_refused; C07] sent(d.writeChan) == old(sent(d.writeChan)) ++ elemOf(data) || (sent(d.writeChan) == old(sent(d.writeChan)) && err != nil)
 //@
 //@ // Writer / Buffer: every line taken from an input of the spool is handed to the disk queue
 //@ func (s *Spool) Writer()
@@ -340,10 +345,11 @@ package destination
 //@ func (s *Spool) Buffer()
 //@   property C07
 //@   requires s.queueBuffer != nil && s.shutdownBuffer != nil && s.queue != nil && s.numBuffered != nil && s.durationWrite != nil
+//@   requires s.queue.writeChan != nil && s.queue.writeResponseChan != nil
 //@   modifies *
 //@   loop 1:
-//@     invariant[wf] s.queueBuffer != nil && s.shutdownBuffer != nil && s.queue != nil && s.numBuffered != nil && s.durationWrite != nil
-//@     assumed_invariant[channel_ownership] !closed(s.queueBuffer)
+//@     invariant[wf] s.queueBuffer != nil && s.shutdownBuffer != nil && s.queue != nil && s.numBuffered != nil && s.durationWrite != nil && s.queue.writeChan != nil && s.queue.writeResponseChan != nil
+//@     assumed_invariant[channel_ownership] !closed(s.queueBuffer) && !closed(s.queue.writeChan)
 //@   branch "<-s.queueBuffer":
 //@     ensures[buffered_line_put; C07] exists e elem :: recvd(s.queueBuffer) == old(recvd(s.queueBuffer)) ++ e && llen(calls(s.queue.Put)) > llen(old(calls(s.queue.Put))) && llast(calls(s.queue.Put)) == eP(e, eNil)
 //@
